@@ -443,9 +443,21 @@ def qcow2_chain(rng, ctx, depth: int = 2, ext: bool = False, raw_base: str | Non
         braw = (braw * (blen // max(len(braw), 1) + 1))[:blen]
         below = as_handle(braw)
         layers.append(RawLayer(braw))
+    top_size, top_ncl = size, ncl
+    short_levels = 0
     for level in range(depth):
+        size, ncl = top_size, top_ncl
+        if level < depth - 1 and top_size > 2 * SECTOR and rng.random() < 0.3:
+            # a backing image that is shorter than the image on top of it (the disk was grown later), its size not a multiple
+            # of the cluster size: what its last cluster stores beyond its size is not part of it - above, that range reads
+            # as zeros
+            size = max(SECTOR, top_size - SECTOR * rng.randrange(1, max(2, min(top_size // SECTOR, 3 * cs // SECTOR))))
+            ncl = -(-size // cs)
+            short_levels += 1
         alpha = "NZUUCSSuu" if ext else "NZzUUC"
         kinds = [rng.choice(alpha) for _ in range(ncl)]
+        if size < top_size and kinds[-1] not in "NS":
+            kinds[-1] = "S" if ext else "N"
         view = wq.make_view(rng, size=size, cluster_bits=cb, kinds=kinds, extl2=ext, tag=rng.getrandbits(48))
         has_below = below is not None or (optout and level == 0)
         # some layers keep their clusters in an external data file (with or without the optional name extension)
@@ -463,8 +475,20 @@ def qcow2_chain(rng, ctx, depth: int = 2, ext: bool = False, raw_base: str | Non
             backing = ALLOW_NO_BACKING_FILE
         q = QCow2(as_handle(img.to_bytes()), backing_file=backing, data_file=as_handle(dataf.to_bytes()) if external else None)
         layers.insert(0, view.layer)
+        if size < top_size:
+            layers.insert(0, EndBarrier(size))
         below = q
-    return Opened(below, Model(size, layers), info={"depth": depth, "ext": ext, "raw_base": raw_base, "optout": optout, "cb": cb})
+    return Opened(below, Model(top_size, layers), info={"depth": depth, "ext": ext, "raw_base": raw_base, "optout": optout, "cb": cb, "short_levels": short_levels})
+
+
+class EndBarrier:
+    """Sits on top of a layer that is shorter than the image above it: beyond that layer's end nothing below is visible."""
+
+    def __init__(self, size: int):
+        self.size = size
+
+    def read_sector(self, sector: int):
+        return b"\x00" * SECTOR if sector * SECTOR >= self.size else None
 
 
 def qcow2_snapshots(rng, ctx, nsnap: int = 2, ext: bool = False):
